@@ -73,7 +73,11 @@ partial def parsePTarget (j : Json) : Except String PTarget := do
     match j.getObjVal? "slice" with
     | .ok s => do
       let a ← s.getArr?
-      .ok (.slice (← (a[0]?.getD Json.null).getStr?) (← (a[1]?.getD Json.null).getNat?) (← (a[2]?.getD Json.null).getNat?))
+      -- a negative bound can never be inside a signal: it is mapped to an index beyond every width
+      let nat (j : Json) : Except String Nat := do
+        let i ← j.getInt?
+        pure (if i < 0 then 1000000007 else i.toNat)
+      .ok (.slice (← (a[0]?.getD Json.null).getStr?) (← nat (a[1]?.getD Json.null)) (← nat (a[2]?.getD Json.null)))
     | .error _ => do .ok (.concat (← (← getArr j "concat").toList.mapM parsePTarget))
 
 def parseSigs (j : Json) : Except String (List (String × Nat)) := do
